@@ -123,6 +123,7 @@ FRAGMENTS = {
     "pi_foreign": '<?pi some data?><ink:thing xmlns:ink="http://example.com/ink" a="1"><ink:child/></ink:thing>',
     "op_group": '<g opacity="0.5"><path d="M64,4 L70,4 L70,10 Z"/><path d="M66,6 L72,6 L72,12 Z" fill="#123456"/></g>',
     "polys": '<polygon points="30,5 50,5 50,15 30,15" fill="purple" fill-opacity="0.25"/><polyline points="1,1 9,1 9,9" style="fill:none;stroke:#222"/><line x1="0" y1="0" x2="10.04" y2="0.06" stroke="red"/>',
+    "nong_containers": '<a fill="none" stroke="red"><rect x="40" y="2" width="6" height="6" fill="black"/></a><switch fill-opacity="0.5"><rect x="50" y="2" width="6" height="6" fill-opacity="1"/></switch><defs fill="none"><rect id="dr" width="5" height="5" fill="black" stroke="none"/></defs><use xlink:href="#dr" x="60" y="2"/>',
     "display_none": '<g display="none"><rect x="2" y="2" width="3" height="3"/></g><path d="M80,80 l5,0 l0,5 z" opacity="0"/>',
 }
 
